@@ -23,6 +23,16 @@ legs
            (bound on the peer or unknown) in addition to the datagram
            traffic, so that service discovery responses and requests share
            SNL PDUs (also inside AGF PDUs) that must fit the receiver's MIU
+  connections  data link connections set up WHILE near-MIU datagrams are
+           pending: on either side connection-oriented sockets with generated
+           options (receive window 0..15 - 0 = "accepts no I PDUs" -,
+           SO_RCVMIU 128..2175) connect to / are accepted by listening
+           sockets of the peer (by address or by service name), the caller
+           having queued a datagram of (peer MIU - 0..20) octets just before
+           connect() / right after accept(), from a socket whose address is
+           below or above the connection's; one message each way over the
+           connection where the receive windows allow it; with the usual
+           datagram traffic
 
 oracles
   activation-failed   both sides must get their controller (perfect medium)
@@ -72,6 +82,10 @@ ASSUMPTIONS = [
     "link survival is not judged: with lto < 60 ms nfcpy's own 50 ms idle "
     "delay ends the link after ten SYMM rounds; traffic seen until then is "
     "checked",
+    "link survival is not judged either when the target's response waiting "
+    "time (rwt 0..3: 0.3 - 2.4 ms) is shorter than the time the simulated "
+    "target takes to answer a long frame: the initiator then ends the link "
+    "with ATN / DSL_REQ; the connections leg therefore uses rwt >= 4",
     "reference LLCP decoder vlib/ref_llcp.py; NFC-DEP framing per "
     "vlib/deppair.parse (independent reading)",
 ]
@@ -135,7 +149,8 @@ def execute(case):
     did = case.get("did")
     o = {"snap": {}, "ui": {"i": [], "t": []}, "rx": {"i": [], "t": []},
          "notes": [], "snep": None, "put": [], "exc": {}, "result": {},
-         "resolved": {"i": [], "t": []}}
+         "resolved": {"i": [], "t": []}, "dlc": []}
+    conns = case.get("dlc", [])
     opts = {}
     for side in ("i", "t"):
         opts[side] = {k: v for k, v in case[side].items()
@@ -168,6 +183,20 @@ def execute(case):
                 rx = nfc.llcp.Socket(llc, nfc.llcp.LOGICAL_DATA_LINK)
                 rx.bind(RX_SAP)
                 socks[side] = rx
+                for k, e in enumerate(conns):
+                    if other(e["client"]) != side:
+                        continue
+                    # the listening socket of connection k and the datagram
+                    # socket its acceptor sends from
+                    srv = nfc.llcp.Socket(llc, nfc.llcp.DATA_LINK_CONNECTION)
+                    srv.setsockopt(nfc.llcp.SO_RCVMIU, e["s_miu"])
+                    srv.setsockopt(nfc.llcp.SO_RCVBUF, e["s_rw"])
+                    srv.bind(e["s_sap"] if e["s_sap"] is not None
+                             else "urn:nfc:sn:c%d" % k)
+                    srv.listen(1)
+                    dl = nfc.llcp.Socket(llc, nfc.llcp.LOGICAL_DATA_LINK)
+                    dl.bind(e["s_ui_sap"])
+                    socks[(side, k)] = (srv, dl)
                 return llc
             return fn
 
@@ -224,6 +253,61 @@ def execute(case):
                                                   timeout=2.0)
             return fn
 
+        def near_miu(side, dl, d, tag):
+            """queue a datagram of (peer MIU - d) octets without waiting"""
+            if d is None:
+                return
+            n = max(0, eff(case, other(side), "miu") - d)
+            try:
+                dl.sendto(bytes(n), RX_SAP, nfc.llcp.MSG_DONTWAIT)
+                o["dlc"].append([tag, n])
+            except nfc.llcp.Error as e:
+                o["notes"].append("near-miu-error:%s" % e.errno)
+
+        def talk(sk, first, own_rw, peer_rw, n):
+            """one message each way where the receive windows allow it; the
+            acceptor answers, it does not send first (C05's business)"""
+            size = min(n, sk.getsockopt(nfc.llcp.SO_SNDMIU))
+            if first and peer_rw > 0:
+                sk.send(bytes(size))
+            if own_rw > 0:
+                got = sk.recv()
+                o["dlc"].append(["recv", None if got is None else len(got)])
+            if not first and peer_rw > 0:
+                sk.send(bytes(size))
+
+        def dlc_client(side, llc, k, e):
+            def fn():
+                dl = nfc.llcp.Socket(llc, nfc.llcp.LOGICAL_DATA_LINK)
+                dl.bind(e["c_ui_sap"])
+                sk = nfc.llcp.Socket(llc, nfc.llcp.DATA_LINK_CONNECTION)
+                sk.setsockopt(nfc.llcp.SO_RCVMIU, e["c_miu"])
+                sk.setsockopt(nfc.llcp.SO_RCVBUF, e["c_rw"])
+                sk.bind(e["c_sap"])
+                # the datagram is pending when the CONNECT PDU is queued
+                near_miu(side, dl, e["c_ui"], "ui-before-connect")
+                sk.connect(e["s_sap"] if e["s_sap"] is not None
+                           else "urn:nfc:sn:c%d" % k)
+                o["dlc"].append(["connected", k])
+                near_miu(side, dl, e["c_ui2"], "ui-after-connect")
+                if e["talk"]:
+                    talk(sk, True, e["c_rw"], e["s_rw"], e["msg"])
+                if e["close"]:
+                    sk.close()
+            return fn
+
+        def dlc_server(side, llc, k, e):
+            def fn():
+                srv, dl = socks[(side, k)]
+                near_miu(side, dl, e["s_ui0"], "ui-before-accept")
+                conn = srv.accept()
+                o["dlc"].append(["accepted", k])
+                # the CC PDU is queued: a datagram joins it
+                near_miu(side, dl, e["s_ui"], "ui-after-accept")
+                if e["talk"]:
+                    talk(conn, False, e["s_rw"], e["c_rw"], e["msg"])
+            return fn
+
         def resolver(side, llc, name):
             def fn():
                 o["resolved"][side].append([name, llc.resolve(name)])
@@ -264,6 +348,12 @@ def execute(case):
                         running["n"] += 1
                     s.spawn(guarded(resolver(side, llc, name)),
                             "sdp-%s%d" % (side, k))
+                for k, e in enumerate(conns):
+                    body = dlc_client if e["client"] == side else dlc_server
+                    with cv:
+                        running["n"] += 1
+                    s.spawn(guarded(body(side, llc, k, e)),
+                            "dlc-%s%d" % (side, k))
                 s.spawn(guarded(sender(side, llc)), "tx-" + side)
                 s.spawn(receiver(side), "rx-" + side)
             return fn
@@ -357,6 +447,17 @@ def pdu_infos(raw):
     return out
 
 
+def conn_pdus(raw):
+    """the CONNECT and CC PDUs (reference decoder's dicts) in a top-level PDU
+    (the PDU itself or aggregated in an AGF)"""
+    try:
+        p = ref.decode(raw)
+    except ref.RefReject:
+        return []
+    return [q for q in (p["pdus"] if p["type"] == "AGF" else [p])
+            if q["type"] in ("CONNECT", "CC")]
+
+
 def snl_shapes(raw):
     """[(responses, requests)] of every SNL PDU in a top-level PDU (the PDU
     itself or aggregated in an AGF)"""
@@ -403,8 +504,9 @@ def judge(case, ctx):
         ctx.label("brs=%d" % brs, "lri=%d" % lri, "lrt=%d" % lrt)
         differ = (eff(case, "i", "miu") != eff(case, "t", "miu") or lri != lrt
                   or eff(case, "i", "lto") != eff(case, "t", "lto"))
-        if (differ or brs > 0) and not case.get("lookups_leg"):
-            ctx.nontrivial()        # (the lookups leg has its own rule)
+        if (differ or brs > 0) and not case.get("lookups_leg") and \
+                not case.get("dlc_leg"):
+            ctx.nontrivial()        # (lookups / connections: own rules)
 
         # --- LLCP parameters
         for a in ("i", "t"):
@@ -466,7 +568,8 @@ def judge(case, ctx):
         limit_lr = {"I>T": dp.LR[lrt], "T>I": dp.LR[lri]}
         limit_miu = {"I>T": eff(case, T, "miu"), "T>I": eff(case, I, "miu")}
         seen = {"chain": 0, "dep": 0, "pdu": 0, "at-miu": 0, "agf": 0,
-                "snl": 0, "snl-res+req": 0, "snl-near-miu": 0}
+                "snl": 0, "snl-res+req": 0, "snl-near-miu": 0,
+                "conn": 0, "conn-rw0": 0, "agf-conn": 0, "agf-conn-tight": 0}
         for e in o["log"]:
             f = dp.parse(e["brty"], e["data"])
             if f["code"] in ("ATR", "PSL"):
@@ -506,7 +609,18 @@ def judge(case, ctx):
                     for nres, nreq in snl_shapes(raw):
                         seen["snl"] += 1
                         seen["snl-res+req"] += bool(nres and nreq)
-                    for name, n in pdu_infos(raw):
+                    infos = pdu_infos(raw)
+                    setup = [x for x in infos
+                             if x[0] in ("AGF/CONNECT", "AGF/CC")]
+                    if setup:
+                        # a connection is set up in an aggregated frame
+                        seen["agf-conn"] += 1
+                        seen["agf-conn-tight"] += \
+                            infos[0][1] >= limit_miu[d] - 3
+                    for q in conn_pdus(raw):
+                        seen["conn"] += 1
+                        seen["conn-rw0"] += q["rw"] == 0
+                    for name, n in infos:
                         seen["pdu"] += 1
                         seen["snl-near-miu"] += name.endswith("SNL") and \
                             limit_miu[d] - 40 <= n <= limit_miu[d]
@@ -552,9 +666,17 @@ def judge(case, ctx):
         if bad:
             flag(ctx, base, Violation("announce", "; ".join(bad)))
 
-        for k in ("chain", "at-miu", "agf", "snl-res+req", "snl-near-miu"):
+        for k in ("chain", "at-miu", "agf", "snl-res+req", "snl-near-miu",
+                  "conn", "conn-rw0", "agf-conn", "agf-conn-tight"):
             if seen[k]:
                 ctx.label("seen:" + k)
+        if case.get("dlc_leg"):
+            # the connections leg: a CONNECT / CC PDU shared an AGF PDU
+            if seen["agf-conn"]:
+                ctx.nontrivial()
+            done = [x[0] for x in o["dlc"]]
+            ctx.label("connections:%d-of-%d-established" % (
+                done.count("connected"), len(case["dlc"])))
         if case.get("lookups"):
             # the lookups leg: responses and requests shared an SNL PDU
             nlook = sum(len(v) for v in case["lookups"].values())
@@ -578,6 +700,9 @@ def judge(case, ctx):
                   "snl": [seen["snl"], seen["snl-res+req"],
                           seen["snl-near-miu"]],
                   "resolved": {x: len(o["resolved"][x]) for x in ("i", "t")},
+                  "dlc": o["dlc"][:12],
+                  "conn-pdus": [seen["conn"], seen["conn-rw0"],
+                                seen["agf-conn"], seen["agf-conn-tight"]],
                   "vtime": round(o["vtime"], 3)})
     except Excluded:
         return
@@ -660,6 +785,69 @@ def st_lookup_case(draw):
         lookups[side] = draw(st.lists(name, min_size=1, max_size=9))
     case["lookups"] = lookups
     case["lookups_leg"] = True
+    return case
+
+
+def conn_tlvs(miu, rw, named):
+    """octets of parameters a CONNECT / CC PDU carries for these socket
+    options (MIUX TLV unless 128, RW TLV unless 1, SN TLV when by name)"""
+    return (4 if miu > 128 else 0) + (3 if rw != 1 else 0) + \
+        (2 + len("urn:nfc:sn:c0") if named else 0)
+
+
+@st.composite
+def st_dlc_case(draw):
+    """st_case with aggregation mostly on and 1..3 data link connections set
+    up while near-MIU datagrams are pending"""
+    case = draw(st_case())
+    for side in ("i", "t"):
+        case[side]["agf"] = draw(st.sampled_from([True, True, None, False]))
+        # the link has to live long enough for the connections (link
+        # survival with lto < 60 ms / a response waiting time below the
+        # target's processing time is not judged, see ASSUMPTIONS)
+        if case[side]["lto"] is not None and case[side]["lto"] < 100:
+            case[side]["lto"] = 100
+        if case[side]["rwt"] is not None and case[side]["rwt"] < 4:
+            case[side]["rwt"] += 4
+    if draw(st.booleans()):
+        case["snep"] = None
+    case["ui"] = case["ui"][:3]
+    rw = st.one_of(st.sampled_from([0, 0, 1, 2, 15]), st.integers(0, 15))
+    miu = st.one_of(st.sampled_from([128, 128, 129, 248, 2175]),
+                    st.integers(128, 2175))
+    saps = {x: draw(st.permutations(list(range(40, 64)))) for x in ("i", "t")}
+    conns = []
+    for k in range(draw(st.integers(1, 3))):
+        client = draw(st.sampled_from(["i", "t"]))
+        server = other(client)
+        named = draw(st.booleans())
+        e = {"client": client,
+             "c_rw": draw(rw), "c_miu": draw(miu),
+             "s_rw": draw(rw), "s_miu": draw(miu),
+             "c_sap": saps[client].pop(), "c_ui_sap": saps[client].pop(),
+             "s_sap": None if named else saps[server].pop(),
+             "s_ui_sap": saps[server].pop(),
+             "talk": draw(st.booleans()), "close": draw(st.booleans()),
+             "msg": draw(st.one_of(st.integers(0, 140),
+                                   st.integers(0, 2200)))}
+        # datagram sizes: the peer's MIU minus 0..12 octets, or minus the
+        # room an aggregated CONNECT / CC PDU with these options needs
+        # (AGF length prefixes, header, parameter TLVs) -6 .. +6
+        eff_miu = {x: min(e[x + "_miu"], eff(case, c, "miu"))
+                   for x, c in (("c", client), ("s", server))}
+        c_need = conn_tlvs(eff_miu["c"], e["c_rw"], named)
+        s_need = conn_tlvs(eff_miu["s"], e["s_rw"], False)
+
+        def delta(need):
+            return st.one_of(st.integers(0, 12),
+                             st.integers(need, need + 12))
+        e["c_ui"] = draw(st.one_of(delta(c_need), delta(c_need), st.none()))
+        e["s_ui"] = draw(st.one_of(delta(s_need), delta(s_need), st.none()))
+        e["c_ui2"] = draw(st.one_of(st.none(), st.none(), delta(0)))
+        e["s_ui0"] = draw(st.one_of(st.none(), st.none(), delta(0)))
+        conns.append(e)
+    case["dlc"] = conns
+    case["dlc_leg"] = True
     return case
 
 
@@ -786,4 +974,23 @@ LEGS = [
              "in particular every SNL PDU and every AGF PDU <= the "
              "receiver's MIU; non-trivial = at least one SNL PDU on the air "
              "carried responses and requests together."),
+    Leg("connections", run=run, gen=lambda tier: st_dlc_case(), quick=500,
+        thorough=10000, shards_quick=8, shards_thorough=16, nt_floor=0.3,
+        rule="the random leg's cases (aggregation mostly on, lto >= 100 ms, "
+             "rwt >= 4 so that the link outlives the set-up) with 1..3 data "
+             "link connections set up right after link-up, client on either "
+             "side (so both NFC-DEP roles connect and accept): socket options "
+             "receive window 0..15 (0 and 1 weighted up) and SO_RCVMIU "
+             "128..2175 on the connecting and on the listening socket, the "
+             "listener addressed by SAP (40..63) or by service name, the "
+             "sockets bound to generated distinct addresses 40..63 so that "
+             "the datagram socket comes before or after the connection's in "
+             "the send order; a datagram of (peer MIU - d) octets, d in 0..12 "
+             "or around the room the CONNECT / CC parameters take, is queued "
+             "just before connect() / right after accept() returned (and "
+             "optionally after connect / before accept), then optionally one "
+             "message each way over the connection where the receive windows "
+             "allow it, optionally close; all oracles as before, in "
+             "particular every PDU and every AGF PDU <= the receiver's MIU; "
+             "non-trivial = a CONNECT or CC PDU travelled inside an AGF PDU."),
 ]
